@@ -66,6 +66,13 @@ func validate(input schema.Input, modelOptions Options) error {
 			if stop.ID == "" {
 				return nmerror.NewInputDataError(fmt.Errorf("empty id set for alternate stop at index %v", idx))
 			}
+			if stopIDs[stop.ID] {
+				return nmerror.NewInputDataError(fmt.Errorf(
+					"alternate stop at index %v has the id `%s` of a stop, ids of stops and alternate stops must differ",
+					idx,
+					stop.ID,
+				))
+			}
 			allStopIDs[stop.ID] = true
 			alternateStopIDs[stop.ID] = true
 		}
